@@ -609,8 +609,57 @@ def r62_eval(ctx, repo):
         elif c[0] != "ok" or not c[1] or r[0] != "ok" or r[1] is not want:
             fail("basin sources", f"{label}: `in` -> {c!r}, access -> {r!r}, "
                  f"expected True / the data of that source")
+    # a transient fault of a basin (failing range request of a remote
+    # basin): the access that hits it may fail, the next one is served
+    bt = MBasin("remote", {"bf": A}, label="remote", transient=1)
+    ds = m.dataset({"f1": D}, cfg, basins=[bt])
+    r1 = m.getitem(ds, "bf")
+    c2 = m.contains(ds, "bf")
+    r2 = m.getitem(ds, "bf")
+    if not (c2 == ("ok", True) and r2[0] == "ok" and r2[1] is A):
+        fail("basin sources", "a basin whose first access fails with a "
+             f"transient OSError: first access -> {r1!r}, afterwards `in` "
+             f"-> {c2!r}, access -> {r2!r}; expected the basin's data (the "
+             "basin must not be dropped for good: the dataset keeps listing "
+             "the feature but can never read it)")
     get = repo.func(CORE, "RTDCBase.__getitem__")
     anc = repo.func(CORE, "RTDCBase._get_ancillary_feature_data")
+    # ---- size correction of computed features
+    from ..lib_C06 import DS as _DS, Model as _Model, SizeArr
+    nanv = float("nan")
+    m4 = _Model(repo)
+    dsz = _DS({}, {"experiment": {"event count": 4}}, n=4)
+
+    def same(a, b):
+        return len(a) == len(b) and all(
+            (x != x and y != y) or x == y for x, y in zip(a, b))
+    for label, given, want in (
+            ("two values short", [1.0, 2.0], [1.0, 2.0, nanv, nanv]),
+            ("one value short", [1.0, 2.0, 3.0], [1.0, 2.0, 3.0, nanv]),
+            ("exact", [1.0, 2.0, 3.0, 4.0], [1.0, 2.0, 3.0, 4.0]),
+            ("two values long", [1.0, 2.0, 3.0, 4.0, 5.0, 6.0],
+             [1.0, 2.0, 3.0, 4.0])):
+        arr_ = SizeArr(given)
+        r = m4.static("check_data_size", dsz, {"out": arr_})
+        if r[0] != "ok" or not isinstance(r[1], dict) or "out" not in r[1] \
+                or not isinstance(r[1]["out"], SizeArr):
+            fail("size correction", f"check_data_size, feature {label}: "
+                 f"-> {r!r}")
+            continue
+        got = r[1]["out"]
+        if not same(got.values, want):
+            fail("size correction", f"check_data_size, feature {label} "
+                 f"({given} for 4 events): -> {got.values}, expected {want} "
+                 "(values kept, missing events nan)")
+        if got.flags.writeable:
+            fail("size correction", f"check_data_size, feature {label}: the "
+                 "corrected array is handed out writable: an in-place edit "
+                 "of ds[feat] changes what every later access returns")
+    litems = [SizeArr([1.0]), SizeArr([2.0]), SizeArr([3.0]), SizeArr([4.0])]
+    r = m4.static("check_data_size", dsz, {"out": litems})
+    if r[0] != "ok" or any(x.flags.writeable for x in litems):
+        fail("size correction", "check_data_size, list of arrays: "
+             f"-> {r!r}; the items must be read-only")
     obs = [
         ("R6.2", "access returns current data", anc, f"{len(hists)} "
          "histories of reads and changes (feature replaced / edited in "
@@ -621,7 +670,12 @@ def r62_eval(ctx, repo):
         ("R6.3", "availability agrees with access", get, "`feat in ds` is "
          "True exactly when `ds[feat]` yields data, after every history"),
         ("R6.3", "basin sources", get, "innate > internal > file > any "
-         "basin, unavailable basins skipped, `in` agrees"),
+         "basin, unavailable basins skipped, a transient fault does not "
+         "drop a basin, `in` agrees"),
+        ("R6.2", "size correction", repo.func(
+            FA + "ancillary_feature.py", "AncillaryFeature.check_data_size"),
+         "computed data of the wrong length are cut / padded with nan, "
+         "values kept, and handed out read-only"),
     ]
     for rule, key, node, good in obs:
         ok = key not in fails
